@@ -8,6 +8,8 @@ package trzsz
 import (
 	"bytes"
 	"fmt"
+	"io"
+	"strings"
 	"time"
 
 	vs "github.com/trzsz/trzsz-go/zzverif/vsched"
@@ -139,6 +141,7 @@ type c03Params struct {
 	Len    int  `json:"len"`
 	First  int  `json:"first"` // index of the first byte in the alphabet (shard)
 	Lazy   bool `json:"lazy"`  // chunks arrive one at a time, only when the reader is blocked
+	Pump   bool `json:"pump,omitempty"`
 }
 
 var c03StatusName = []string{"ok", "BLOCKED", "Interrupted"}
@@ -193,10 +196,124 @@ func c03Case(b *trzszBuffer, stream []byte, chunks [][]byte, ops []c03Op, lazy b
 	return res
 }
 
+// c03Pump: the same question one layer up — the bytes go through the real input pump
+// (wrapTransferInput) that trz/tsz put in front of the buffer: a long stream of lines, junk-tolerant
+// lines and sized binary blocks, every transport read size of a menu, the reader consuming everything
+// only after the pump has swallowed the whole stream (a backlog far beyond one pump buffer), after
+// each write, or lagging by a fixed number of writes.
+func c03Pump(r *vs.JobResult) {
+	type item struct {
+		kind byte // 'L' strict line, 'J' junk line, 'B' binary
+		data []byte
+	}
+	var items []item
+	var stream []byte
+	for i := 0; i < 90; i++ {
+		line := []byte(fmt.Sprintf("#DATA:%04d:%s", i, strings.Repeat(string(rune('a'+i%26)), 300+(i*37)%900)))
+		switch i % 3 {
+		case 0:
+			items = append(items, item{'L', line})
+			stream = append(append(stream, line...), '\n')
+		case 1:
+			items = append(items, item{'J', line})
+			stream = append(append(stream, line...), '\n')
+		default:
+			blk := genContent('E', i, 700+(i*53)%2500)
+			items = append(items, item{'B', blk})
+			stream = append(stream, blk...)
+		}
+	}
+	for _, seg := range []int{1000, 4096, 5000, 32768, 333, 100000} {
+		for _, lag := range []int{-1, 0, 3, 12} { // -1: read only after everything was pumped
+			viol := ""
+			s := vs.Run(vs.Config{MaxSteps: 5_000_000, NoRecord: true}, nil, nil, func() {
+				t := newTransfer(io.Discard, nil, false, nil)
+				in := vs.NewPipe("stdin")
+				wrapTransferInput(t, in, false)
+				next := 0
+				readOne := func() bool {
+					it := items[next]
+					var v []byte
+					var err error
+					tmo := vtime.After(time.Second)
+					switch it.kind {
+					case 'L':
+						v, err = t.buffer.readLine(false, tmo)
+					case 'J':
+						v, err = t.buffer.readLine(true, tmo)
+					default:
+						v, err = t.buffer.readBinary(len(it.data), tmo)
+					}
+					if err != nil || !bytes.Equal(v, it.data) {
+						viol = fmt.Sprintf("item %d (%c, %d bytes) read through the input pump: got %d bytes %q..., err %v, want %q...", next, it.kind, len(it.data), len(v), clipStr(string(v), 40), err, clipStr(string(it.data), 40))
+						return false
+					}
+					next++
+					return true
+				}
+				written, writes := 0, 0
+				for off := 0; off < len(stream); off += seg {
+					e := off + seg
+					if e > len(stream) {
+						e = len(stream)
+					}
+					in.Write(stream[off:e])
+					vs.WaitSettled(func() bool { return false }, 0) // the pump has taken it
+					written = e
+					writes++
+					if lag >= 0 && writes > lag {
+						// consume every item that is completely there up to `lag` writes ago
+						limit := written - lag*seg
+						consumed := 0
+						for _, it := range items[:next] {
+							consumed += len(it.data)
+							if it.kind != 'B' {
+								consumed++
+							}
+						}
+						for next < len(items) {
+							need := len(items[next].data)
+							if items[next].kind != 'B' {
+								need++
+							}
+							if consumed+need > limit {
+								break
+							}
+							if !readOne() {
+								return
+							}
+							consumed += need
+						}
+					}
+				}
+				for next < len(items) {
+					if !readOne() {
+						return
+					}
+				}
+			})
+			r.Execs++
+			r.Nontrivial++
+			if len(s.Crash) > 0 {
+				viol = "panic: " + s.CrashString()
+			}
+			if viol != "" {
+				r.Violate("c03:pump", fmt.Sprintf("transport reads of %d bytes, reader lagging %d writes (-1: reads after the whole stream): %s", seg, lag, viol), nil)
+				return
+			}
+		}
+	}
+	r.Samples = append(r.Samples, fmt.Sprintf("input pump: %d items / %d bytes x 6 transport read sizes x 4 reader lags", len(items), len(stream)))
+}
+
 func c03Run(j vs.Job) *vs.JobResult {
 	var p c03Params
 	j.Decode(&p)
 	r := &vs.JobResult{Outcomes: map[string]int64{}}
+	if p.Pump {
+		c03Pump(r)
+		return r
+	}
 	opseqs := c03OpSeqs()
 	if p.Depth2 {
 		opseqs = opseqs[:42]
@@ -292,7 +409,7 @@ func init() {
 		Rule: "every byte stream of length 0..n over {a,LF,CR,#,:,Ctrl-C} x every segmentation into non-empty chunks (2^(n-1)) x " +
 			"every operation sequence of the fixed menu (depth<=2 over {strict line, junk line, binary 0..3}, depth 3-4 over a core) on the real trzszBuffer, " +
 			"eager (all chunks queued) and lazy (next chunk arrives only when the reader blocks) arrival; compared step by step with a cursor reference model; " +
-			"non-trivial = stream contains LF and is split into >=2 chunks",
+			"non-trivial = stream contains LF and is split into >=2 chunks; plus a 150 KB stream of lines and binary blocks through the real input pump (wrapTransferInput) x 6 transport read sizes x 4 reader lags",
 		Assumptions: []string{
 			"BLOCKED is observed as the receive timeout firing only when no chunk is queued: under the scheduler a ready data chunk always wins the select, so a timeout result means the real code would have waited",
 			"results after an Interrupted or a timeout are not compared (the transfer is over at that point)",
@@ -307,13 +424,14 @@ func init() {
 			var jobs []vs.Job
 			add := func(n int, lazy, d2 bool) {
 				if n == 0 {
-					jobs = append(jobs, vs.MkJob(fmt.Sprintf("len0 lazy=%v", lazy), c03Params{false, 0, 0, lazy}))
+					jobs = append(jobs, vs.MkJob(fmt.Sprintf("len0 lazy=%v", lazy), c03Params{false, 0, 0, lazy, false}))
 					return
 				}
 				for f := range c03Alphabet {
-					jobs = append(jobs, vs.MkJob(fmt.Sprintf("len%d first%d lazy=%v depth2=%v", n, f, lazy, d2), c03Params{d2, n, f, lazy}))
+					jobs = append(jobs, vs.MkJob(fmt.Sprintf("len%d first%d lazy=%v depth2=%v", n, f, lazy, d2), c03Params{d2, n, f, lazy, false}))
 				}
 			}
+			jobs = append(jobs, vs.MkJob("input pump", c03Params{Pump: true}))
 			// longest first for load balance
 			add(maxFull+1, false, true)
 			for n := maxFull; n >= 0; n-- {
